@@ -112,11 +112,14 @@ Ev_Recovery ==
   \/ Is("Rec_Respawn") /\ IsG /\ E.th = RECOVERY /\ rpc[E.g] = "respawn" /\ rw[E.g] = E.a /\ Rec_Respawn(E.g) /\ Adv
 
 Ev_Harness ==
+  \* written by the caller thread around each API call, for the property-level judge (Trace_PoolProp); the
+  \* hook points inside the calls are what this module follows
+  \/ (Is("C_Call") \/ Is("C_Ret")) /\ E.th = CALLER /\ Same /\ Adv
   \* Humphrey's own monitor stream, read by the driver after a run without restart: b = number of
   \* ThreadRestarted events naming worker a.  Must equal the number of respawns of that id in the model.
   \/ Is("Mon_Restarted") /\ IsW(E.a) /\ cur = 1 /\ inc[1][E.a] = E.b /\ Same /\ Adv
   \* a = number of tasks whose body was entered exactly once and returned exactly once (never, if it panics),
-  \* counted by the bodies themselves; b = worker threads (by name) still in /proc
+  \* counted by the bodies themselves; b = threads beyond "main + one recovery thread per start()" still in /proc
   \/ Is("Quiesced") /\ RunOver /\ sending = {} /\ E.a = nsub /\ E.b = 0 /\ Same /\ Adv
   \* a = 1: drop() has not returned after the escalating waits.  Explicable only where the model's
   \* caller is blocked for ever, i.e. under DropJoinsRecovery.
